@@ -1,5 +1,6 @@
 import BpModel.Proofs.CDecTree
 import BpModel.Proofs.BridgeFmt
+import BpModel.Proofs.OpMode
 /-!
 # C07 — encoding touches exactly its bytes, and each field exactly its bits
 
@@ -86,6 +87,13 @@ theorem C07_py_mask (t : Ty) (v : Val) (hv : shape t v = true) :
 theorem C07_c_mask (be : Bool) (t : Ty) (v : Val) (hwf : t.wf = true) (hv : shape t v = true) :
     CRt.encode be t v = .ok (Spec.encode t (reduce t v)) := by
   rw [C07_spec_mask]; exact CRt.cencode_eq_spec be t v hwf hv
+
+/-- optimization mode, every dialect: same statement -/
+theorem C07_op_mask (d : OpMode.Dialect) (t : Ty) (v : Val) (hne : Wire.noExt t = true) (hwf : t.wf = true)
+    (hv : shape t v = true) :
+    Wire.encodeWith (OpMode.encLeaf d) t v = .ok (Spec.encode t (reduce t v)) := by
+  rw [C07_spec_mask]
+  exact Wire.encodeWith_eq_spec (OpMode.encLeaf d) (fun n hn x => OpMode.writes_opLeaf d n hn x) t v hne hwf hv
 
 /-- C never leaves the `⌈N/8⌉`-byte buffer, a cell or the staging buffer while encoding (no `.oob`),
 on either build -/
